@@ -418,6 +418,13 @@ def c16(obj, kind, case, cfg, rec):
                 # missing values kept as their own group: shown as a row of its own (optional when dropna=False: they stay missing in transform)
                 (exp if obj.features_dropna.get(f, obj.dropna) else opt).add(repr(lab[obj.str_nan]))
             rec('C16:summary#post.one_row_per_quantitative_group', exp <= labels_seen <= (exp | opt) and len(rows) == len(labels_seen), 'feature %s: summary labels %r, fitted group labels %r' % (f, sorted(labels_seen), sorted(exp)), dict(feature=f))
+            # the content of each row is the interval label(s) of the quantiles merged in that group, as transform (output_dtype='str') would name them NOW
+            fresh = obj._get_labels_per_values(output_dtype='str')[f]
+            for g in groups:
+                rw = rows[rows['label'].map(repr) == repr(lab[g])]
+                exp_content = sorted(set(str(fresh[v]) for v in order.content[g] if v != obj.str_nan) | ({obj.str_nan} if obj.str_nan in order.content[g] else set()))
+                got_content = sorted(map(str, rw.iloc[0]['content'])) if len(rw) == 1 else None
+                rec('C16:summary#post.quantitative_row_content_is_current_interval_of_the_group', got_content == exp_content, 'feature %s group %r: summary content %r, current interval label(s) %r' % (f, g, got_content, exp_content), dict(feature=f))
             if nan_merged:
                 g = order.get_group(obj.str_nan); rw = rows[rows['label'].map(repr) == repr(lab[g])]
                 rec('C16:summary#post.nan_shown_in_the_group_it_was_merged_into', len(rw) == 1 and obj.str_nan in rw.iloc[0]['content'], 'feature %s: NaN merged into %r but not shown there' % (f, g), dict(feature=f))
@@ -480,7 +487,7 @@ def one(arg):
         try: fn()
         except Exception as e:
             recs.append(('X:battery_crash', False, lit, '%s clause group crashed: %s' % (p, traceback.format_exc()[-700:])))
-    if ('C04' in props or 'C06' in props) and kind in ('BinaryCarver', 'ContinuousCarver', 'Discretizer'):
+    if ('C04' in props or 'C06' in props or 'C16' in props) and kind in ('BinaryCarver', 'ContinuousCarver', 'Discretizer'):
         # the same clauses on a manually edited object (update_discretizer), as the quantifiers of C04 / C06 say
         try:
             from rtc.c17_edits import candidate_edits
@@ -493,6 +500,7 @@ def one(arg):
                 rec_e = lambda c, ok, m, ex=None: rec(c + '.after_edit', ok, m, dict(ex or {}, edits=done))
                 if 'C04' in props: c04(eo, kind, case, cfg, rec_e)
                 if 'C06' in props: c06(eo, kind, case, cfg, rec_e, rng)
+                if 'C16' in props: c16(eo, kind, case, cfg, lambda c, ok, m, ex=None: rec_e(c, ok, m, ex) if 'history' not in c else None)
         except Exception as e:
             recs.append(('X:battery_crash', False, lit, 'edited-object clauses crashed: %s' % traceback.format_exc()[-600:]))
     if 'C05' in props:
